@@ -273,6 +273,9 @@ pub fn run_prop<T, S, F>(
                         st.rep.infra += 1;
                         if st.rep.notes.len() < 10 {
                             st.rep.notes.push(format!("{sub}: infra: {}", f.msg));
+                            if std::env::var_os("KVERIF_INFRA_CASES").is_some() {
+                                st.rep.notes.push(format!("{sub}: infra case: {}", serde_json::to_string(&case).unwrap_or_default()));
+                            }
                         }
                     }
                     return Ok(());
